@@ -9,9 +9,11 @@ import (
 	"os"
 	"os/exec"
 	"path/filepath"
+	"runtime"
 	"sort"
 	"strconv"
 	"strings"
+	"sync"
 	"time"
 
 	"golang.org/x/tools/go/ssa"
@@ -76,6 +78,20 @@ type propUnit struct {
 	fn      *ssa.Function
 	classes map[string]bool // nil = all
 	sweep   bool
+}
+
+// genWorkers: how many units are symbolically executed at once (GOWP_GEN overrides).
+func genWorkers() int {
+	if v := os.Getenv("GOWP_GEN"); v != "" {
+		if n, err := strconv.Atoi(v); err == nil && n > 0 {
+			return n
+		}
+	}
+	n := runtime.NumCPU() / 2
+	if n < 1 {
+		n = 1
+	}
+	return n
 }
 
 func hasProp(ps []string, p string) bool {
@@ -185,8 +201,24 @@ type checkRun struct {
 func (e *Engine) runProperty(prop string, cfg *PropCfg, scfg SolveCfg) *checkRun {
 	cr := &checkRun{prop: prop, eng: e, cfg: cfg, notes: map[string]bool{}}
 	units := e.unitsFor(prop, cfg)
-	for _, pu := range units {
-		res := e.verifyUnit(pu.fn, pu.classes)
+	// the units are independent: generate their verification conditions in parallel, report in order
+	results := make([]*UnitResult, len(units))
+	{
+		var wg sync.WaitGroup
+		sem := make(chan struct{}, genWorkers())
+		for i, pu := range units {
+			wg.Add(1)
+			sem <- struct{}{}
+			go func(i int, pu *propUnit) {
+				defer wg.Done()
+				defer func() { <-sem }()
+				results[i] = e.verifyUnit(pu.fn, pu.classes)
+			}(i, pu)
+		}
+		wg.Wait()
+	}
+	for i, pu := range units {
+		res := results[i]
 		cr.units = append(cr.units, res)
 		if res.Failed != "" {
 			cr.outOfReach = append(cr.outOfReach, res.Func+": "+res.Failed)
